@@ -107,6 +107,11 @@ def _exprs():
     E.append(("b=-a", "b", ["a"], lambda M: [0 - p for p in A(M, "a")]))
     E.append(("c=D{a}", "c", ["a"], lambda M: _diff(A(M, "a"))))
     E.append(("c=I{a}+SUM{b}", "c", ["a", "b"], lambda M: [p + _plain_sum(A(M, "b")) for p in _integ(A(M, "a"))]))
+    # an aggregate evaluated after a nested right operand: its temporary lands on a stack slot that was used before
+    E.append(("c=a+b*2+SUM{b}", "c", ["a", "b"],
+              lambda M: [p + q * 2 + _plain_sum(A(M, "b")) for p, q in zip(A(M, "a"), A(M, "b"))]))
+    E.append(("a*(b+2)-SUM{a}", None, ["a", "b"],
+              lambda M: [p * (q + 2) - _plain_sum(A(M, "a")) for p, q in zip(A(M, "a"), A(M, "b"))]))
     E.append(("a=x+b", "a", ["b"], lambda M: [p + q for p, q in zip(M["x"], A(M, "b"))]))
     E.append(("x=a", "x", ["a"], lambda M: list(A(M, "a"))))
     E.append(("z=a+1", "z", ["a"], lambda M: [p + 1 for p in A(M, "a")]))
